@@ -20,7 +20,7 @@ func ZZ_C05_red512_full() {
 
 // red512(!full): 256-bit input
 //
-//zz: prop=C05 tier=quick backend=lia timeout=300
+//zz: prop=C05 also=C12 tier=quick backend=lia timeout=300
 func ZZ_C05_red512_half() {
 	var x [8]uint64
 	zzFill("x", &x)
@@ -72,10 +72,10 @@ func ZZ_C05_isLessThanOrder() {
 // quick-tier instance of red512(full): inputs below 2^320 (the general 512-bit statement
 // is the thorough-tier harness ZZ_C05_red512_full)
 //
-//zz: prop=C05 tier=quick backend=lia timeout=300
+//zz: prop=C05 also=C12 tier=quick backend=lia timeout=300
 func ZZ_C05_red512_full_320bit() { zzRed512OneWord(4) }
 
-//zz: prop=C05 tier=thorough backend=lia timeout=3000 budget=7200
+//zz: prop=C05 also=C12 tier=thorough backend=lia timeout=3000 budget=7200
 func ZZ_C05_red512_full_word5() { zzRed512OneWord(5) }
 
 //zz: prop=C05 tier=deep backend=lia timeout=3000 budget=7200
